@@ -246,7 +246,7 @@ Section More.
 
   (* what ~Property of an unread property leaves behind *)
   Lemma del_shape fuel w p w' :
-    pinv w -> NOACT w -> (forall b lf, has_leaf w b lf -> lf_tg lf <> Some p) ->
+    pinv w -> (forall b lf, has_leaf w b lf -> lf_tg lf <> Some p) ->
     step1 fn rtl fuel w (PDel p) = (w', None) ->
     exists pr, lookup (w_props w) p = Some pr /\ w_props w' = remove_key (w_props w) p /\
       (forall b, pr_updater pr <> Some b -> get_bind w' b = get_bind w b) /\
@@ -257,21 +257,24 @@ Section More.
                               get_bind w' bp = get_bind (fst (destroy_binding w1 bp)) bp
       | None => w_evps w' = w_evps w end.
   Proof.
-    intros Hinv Hna Hnr H. cbn [step1] in H. unfold destroy_prop in H.
+    intros Hinv Hnr H. cbn [step1] in H. unfold destroy_prop in H.
     destruct (lookup (w_props w) p) as [pr|] eqn:Hp; [|discriminate H].
     assert (Pv : pview w p = Some (psigs_of pr)) by (unfold pview; rewrite Hp; reflexivity).
     (* the tables of p hold plain observers only *)
-    assert (Hobs : forall k t, sig_of pr k = Some t -> exists tb, get_table w t = Some tb /\
+    assert (Hobs : forall k t, k = KDestroyed -> sig_of pr k = Some t -> exists tb, get_table w t = Some tb /\
                      forall x ser s0, nth_error (t_slots tb) x = Some (Some (ser, s0)) -> exists label, s0 = SObs label None).
-    { intros k t Hk. assert (Ow : owns w p k t) by (exists (psigs_of pr); split; [exact Pv|destruct k; exact Hk]).
+    { intros k t Hkd Hk. assert (Ow : owns w p k t) by (exists (psigs_of pr); split; [exact Pv|destruct k; exact Hk]).
       destruct (pi_own _ _ _ _ _ _ _ Hinv _ _ _ Ow (fun z => z)) as (sl & fr & Et). apply tview_Some in Et. destruct Et as (tb & Ht & <- & <- & Hal).
       exists tb. split; [exact Ht|]. intros x ser s0 Hn.
       assert (Hs : slot_at w t x ser s0) by (exists (t_slots tb), (t_free tb), (t_alive tb); split; [unfold tview; rewrite Ht; reflexivity|exact Hn]).
-      destruct s0 as [label act|b l]; [exists label; rewrite (Hna _ _ _ _ _ Hs); reflexivity|]. exfalso.
+      destruct s0 as [label act|b l].
+      { (* the subscribers of destroyed() never act: the link invariant says so *)
+        destruct (pi_quiet _ _ _ _ _ _ _ Hinv p k t x ser _ Ow (or_introl Hkd) Hs) as [(l' & E)|(b' & l' & E)]; [inversion E; subst; exists l'; reflexivity|discriminate E]. }
+      exfalso.
       destruct (pi_slot _ _ _ _ _ _ _ Hinv _ _ _ _ _ (fun z => z) Hs) as (lf & Hl & Hid & _).
       exact (Hnr b lf Hl (pi_slotown _ _ _ _ _ _ _ Hinv _ _ _ _ _ _ _ _ Hs Hl Hid Ow (fun z => z))). }
     destruct (emit_obs_only (set_helper fn rtl fuel) w (pr_destroyed pr) p KDestroyed []) as (w1 & He & S1).
-    { intros t Et. destruct (Hobs KDestroyed t Et) as (tb & Ht & Ho). exists tb. split; [exact Ht|]. split; [|exact Ho].
+    { intros t Et. destruct (Hobs KDestroyed t eq_refl Et) as (tb & Ht & Ho). exists tb. split; [exact Ht|]. split; [|exact Ho].
       destruct (t_emitting tb) eqn:Hem; [|reflexivity]. exfalso.
       unfold emit in H. rewrite Et, Ht, Hem in H. discriminate H. }
     rewrite He in H. destruct S1 as (T1 & P1 & B1 & E1 & _ & O1 & Hd1 & Sr1).
@@ -321,26 +324,30 @@ Section More.
       + inversion Hu; subst w2. rewrite Ev6. exact E1.
   Qed.
 
-  Lemma grow_del fuel w p w' :
-    SC w -> COH w -> (forall b lf, has_leaf w b lf -> lf_tg lf <> Some p) ->
-    step1 fn rtl fuel w (PDel p) = (w', None) -> SC w' /\ COH w'.
+  Lemma grow_del_core fuel w p w' :
+    pinv w -> SIMPLE w -> COH w -> (forall b lf, has_leaf w b lf -> lf_tg lf <> Some p) ->
+    step1 fn rtl fuel w (PDel p) = (w', None) ->
+    SIMPLE w' /\ COH w' /\ (forall t pos ser s0, slot_at w' t pos ser s0 -> slot_at w t pos ser s0) /\ w_props w' = remove_key (w_props w) p.
   Proof.
-    intros (Hinv & Hna & Hsi) (s & (R1 & R2 & R3) & HInv) Hnr H. cbn [step1] in H.
+    intros Hinv Hsi (s & (R1 & R2 & R3) & HInv) Hnr H. cbn [step1] in H.
     pose proof (destroy_prop_pinv fn rtl fuel w p w' None Hinv H I) as Hinv'. unfold destroy_prop in H.
     destruct (lookup (w_props w) p) as [pr|] eqn:Hp; [|discriminate H].
     assert (Pv : pview w p = Some (psigs_of pr)) by (unfold pview; rewrite Hp; reflexivity).
     (* the tables of p hold plain observers only *)
-    assert (Hobs : forall k t, sig_of pr k = Some t -> exists tb, get_table w t = Some tb /\
+    assert (Hobs : forall k t, k = KDestroyed -> sig_of pr k = Some t -> exists tb, get_table w t = Some tb /\
                      forall x ser s0, nth_error (t_slots tb) x = Some (Some (ser, s0)) -> exists label, s0 = SObs label None).
-    { intros k t Hk. assert (Ow : owns w p k t) by (exists (psigs_of pr); split; [exact Pv|destruct k; exact Hk]).
+    { intros k t Hkd Hk. assert (Ow : owns w p k t) by (exists (psigs_of pr); split; [exact Pv|destruct k; exact Hk]).
       destruct (pi_own _ _ _ _ _ _ _ Hinv _ _ _ Ow (fun z => z)) as (sl & fr & Et). apply tview_Some in Et. destruct Et as (tb & Ht & <- & <- & Hal).
       exists tb. split; [exact Ht|]. intros x ser s0 Hn.
       assert (Hs : slot_at w t x ser s0) by (exists (t_slots tb), (t_free tb), (t_alive tb); split; [unfold tview; rewrite Ht; reflexivity|exact Hn]).
-      destruct s0 as [label act|b l]; [exists label; rewrite (Hna _ _ _ _ _ Hs); reflexivity|]. exfalso.
+      destruct s0 as [label act|b l].
+      { (* the subscribers of destroyed() never act: the link invariant says so *)
+        destruct (pi_quiet _ _ _ _ _ _ _ Hinv p k t x ser _ Ow (or_introl Hkd) Hs) as [(l' & E)|(b' & l' & E)]; [inversion E; subst; exists l'; reflexivity|discriminate E]. }
+      exfalso.
       destruct (pi_slot _ _ _ _ _ _ _ Hinv _ _ _ _ _ (fun z => z) Hs) as (lf & Hl & Hid & _).
       exact (Hnr b lf Hl (pi_slotown _ _ _ _ _ _ _ Hinv _ _ _ _ _ _ _ _ Hs Hl Hid Ow (fun z => z))). }
     destruct (emit_obs_only (set_helper fn rtl fuel) w (pr_destroyed pr) p KDestroyed []) as (w1 & He & S1).
-    { intros t Et. destruct (Hobs KDestroyed t Et) as (tb & Ht & Ho). exists tb. split; [exact Ht|]. split; [|exact Ho].
+    { intros t Et. destruct (Hobs KDestroyed t eq_refl Et) as (tb & Ht & Ho). exists tb. split; [exact Ht|]. split; [|exact Ho].
       destruct (t_emitting tb) eqn:Hem; [|reflexivity]. exfalso.
       unfold emit in H. rewrite Et, Ht, Hem in H. discriminate H. }
     rewrite He in H. destruct S1 as (T1 & P1 & B1 & _ & _ & O1 & Hd1 & Sr1).
@@ -385,12 +392,20 @@ Section More.
       - intros q prq Hq. rewrite Pw in Hq. cbn [s' A.env]. destruct (Nat.eq_dec q p) as [->|Hne]; [rewrite lookup_remove_same in Hq; discriminate Hq|].
         rewrite lookup_remove_other in Hq by exact Hne. auto.
       - intros q. cbn [s' A.tr]. rewrite IO. destruct (Nat.eqb q p); [reflexivity|apply R2]. }
-    split.
-    - split; [exact Hinv'|]. split.
-      + intros t pos ser label act Hs. eapply Hna. apply Sw. exact Hs.
-      + intros q x Hx. rewrite IO in Hx. destruct (Nat.eqb q p); [discriminate Hx|eauto].
+    split; [|split; [|split; [exact Sw|exact Pw]]].
+    - intros q x Hx. rewrite IO in Hx. destruct (Nat.eqb q p); [discriminate Hx|eauto].
     - exists s'. split; [exact Rel'|]. apply Inv_from_parts; [exact Hinv'|exact Rel'|].
       intros q t Ht. cbn [s' A.tr A.env] in *. destruct (Nat.eqb q p); [discriminate Ht|]. destruct (HInv q t Ht) as (A1 & A2 & A3 & _). auto.
+  Qed.
+
+  Lemma grow_del fuel w p w' :
+    SC w -> COH w -> (forall b lf, has_leaf w b lf -> lf_tg lf <> Some p) ->
+    step1 fn rtl fuel w (PDel p) = (w', None) -> SC w' /\ COH w'.
+  Proof.
+    intros (Hinv & Hna & Hsi) HC Hnr H.
+    destruct (grow_del_core fuel w p w' Hinv Hsi HC Hnr H) as (Hsi' & HC' & Sw & _).
+    split; [|exact HC']. split; [exact (destroy_prop_pinv fn rtl fuel w p w' None Hinv H I)|]. split; [|exact Hsi'].
+    intros t pos ser label act Hs. eapply Hna. apply Sw. exact Hs.
   Qed.
 
   (* "nobody reads p", decidably: no leaf of a live binding refers to p *)
